@@ -422,13 +422,13 @@ def run(ctx):
     install_counters(acc)
     ck = Ck(acc)
     cidr_cases(ck, rnd, ctx)
-    set_cases(ck, rnd, ctx.scale(1600, 80000))
+    set_cases(ck, rnd, ctx.scale(6000, 120000))
     normalize_cases(ck, rnd, ctx.scale(800, 30000))
-    glob_cases(ck, rnd, ctx.scale(2400, 120000))
-    version_cases(ck, rnd, ctx.scale(1200, 50000))
-    tag_cases(ck, rnd, ctx.scale(1000, 40000))
-    arn_cases(ck, rnd, ctx.scale(1000, 40000))
-    context_histories(ck, rnd, ctx.scale(300, 10000))
+    glob_cases(ck, rnd, ctx.scale(8000, 160000))
+    version_cases(ck, rnd, ctx.scale(4000, 80000))
+    tag_cases(ck, rnd, ctx.scale(3000, 60000))
+    arn_cases(ck, rnd, ctx.scale(3000, 60000))
+    context_histories(ck, rnd, ctx.scale(800, 16000))
     acc.sample({"helper": "parse_cidr.contains", "args": ["10.0.0.0/8", "10.255.255.255"], "expected": True})
     acc.sample({"helper": "glob", "args": ["abc", "a[!a]*"], "expected": True})
     acc.sample({"context_history": ["success", "host-runtime-error", "cel-error"], "expected": "C7N is None after every step"})
